@@ -198,7 +198,7 @@ int main(int argc, char** argv) {
    std::vector<Setting> pool;
    for (int t = 0; t < 3; ++t) for (int l = 1; l <= 6; ++l) pool.push_back({t, l, 0, 0});
    for (unsigned m : {1u << 2, 1u << 6, (1u << 1) | (1u << 4), 126u, (1u << 5) | (1u << 6), 1u << 3, (1u << 2) | (1u << 3) | (1u << 4)}) pool.push_back({3, 0, m, int(m % 3)});
-   const int maxlog = 3, maxdest = th ? 2 : 1, maxtotal = th ? 4 : 3;
+   const int maxlog = 3, maxdest = th ? 2 : 1, maxtotal = vf::deep() ? 5 : th ? 4 : 3;
    // thorough depth 3: the third log setting is restricted to the types already present (that is where duplicates happen) + one fresh type
    for (int nl = 0; nl <= maxlog; ++nl) for (int nd = 0; nd <= maxdest; ++nd) {
       if (nl + nd < 2 || nl + nd > maxtotal) continue;       // single settings are part A; at most 4 settings per history
